@@ -114,8 +114,118 @@ def sentinel_not_unwrapped(ctx, g):
     ctx.floor("unwraps of ds.op in Boundary::glue / glue_recursively", n, 1)
 
 
+def boundary_bookkeeping(ctx, g):
+    """the ridge map of the growing fundamental domain: initially every ridge (d, i, j), i != j, of every chamber faces its own other side
+    (d, j, i) with count 1; gluing the facet (d, i) joins, for every j != i, the ridges opposite to (d, i, j) and (d.i, i, j) to each other
+    with the SUM of the two counts (both directions, same count) and forgets the two glued ridges; at a mirror facet the ridge opposite to
+    (d, i, j) is closed off with the dummy ridge and keeps its count.  The closing test of glue_recursively compares exactly these counts."""
+    ctx.clauses.append("ridge map: initial pairing (d,i,j) <-> (d,j,i) with count 1 over all chambers and index pairs; glue joins the two far ridges symmetrically with the summed count and removes the glued ones (T9)")
+    B = "fundamental_group::Boundary::<'a, T>::"
+    nb = ctx.body(B + "new")
+    ctx.scan([nb])
+    ins = [(bi, [strip(norm(nb.origin(a), g)) for a in t["args"]]) for bi, t in nb.calls("::insert")]
+    bad = None
+    if len(ins) != 1:
+        bad = "%d inserts" % len(ins)
+    else:
+        bi, a = ins[0]
+        k, v = a[1], a[2]
+        okshape = k[0] == "agg" and len(k[2]) == 3 and v[0] == "agg" and len(v[2]) == 2 and strip(v[2][0])[0] == "agg" and len(strip(v[2][0])[2]) == 3
+        if not okshape:
+            bad = "not insert((d, i, j), ((d, j, i), 1))"
+        else:
+            d_, i_, j_ = [strip(x) for x in k[2]]
+            o = [strip(x) for x in strip(v[2][0])[2]]
+            rd, ri, rj = (loop_range_of_payload(nb, x, g) for x in (d_, i_, j_))
+            full_i = lambda r: r and eval_int(r[0]) == 0 and r[2] and is_call(strip(r[1]), "::dim")
+            if o != [d_, j_, i_] or eval_int(v[2][1]) != 1:
+                bad = "a ridge (d, i, j) does not start opposite to (d, j, i) with count 1: %s -> %s" % (show(k, 1)[:40], show(v, 1)[:50])
+            elif not (rd and eval_int(rd[0]) == 1 and rd[2] and is_call(strip(rd[1]), "::size") and full_i(ri) and full_i(rj)):
+                bad = "the initial map does not cover d in 1..=size(), i, j in 0..=dim()"
+            elif not any(x[0] == "rel" and x[1] == "Ne" and {strip(x[2]), strip(x[3])} == {i_, j_} for x in (atom_norm(y, g) for y in nb.facts_at(bi))):
+                bad = "ridges are entered without i != j"
+    ctx.ob("T9-ridge-map", nb.name, "insert((d, i, j), ((d, j, i), 1))", "ok" if not bad else "violation", "every ridge of every chamber, i != j, faces (d, j, i) with count 1" if not bad else bad)
+    gb = ctx.body(B + "glue")
+    ctx.scan(ctx.facts.with_closures(gb.name))
+    me, d_, i_ = (("param", k, gb.debug.get(k, "")) for k in (1, 2, 3))
+    di = ("call", "std::option::Option::<T>::unwrap", (("call", "dsets::DSet::op", (("field", me, "ds"), i_, d_)),))
+    ins = [(bi, [strip(norm(gb.origin(a), g)) for a in t["args"]]) for bi, t in gb.calls("::insert")]
+    rem = [(bi, [strip(norm(gb.origin(a), g)) for a in t["args"]]) for bi, t in gb.calls("::remove")]
+    def opp(ch, j):
+        return ("call", B + "opposite", (me, ch, i_, j))
+    bad = None
+    mirror = lambda bi: any(x[0] == "rel" and x[1] == "Eq" and {strip(x[2]), strip(x[3])} == {d_, di} for x in (atom_norm(y, g) for y in gb.facts_at(bi)))
+    inner = lambda bi: any(x[0] == "rel" and x[1] == "Ne" and {strip(x[2]), strip(x[3])} == {d_, di} for x in (atom_norm(y, g) for y in gb.facts_at(bi)))
+    im, ii = [x for x in ins if mirror(x[0])], [x for x in ins if inner(x[0])]
+    rm, ri_ = [x for x in rem if mirror(x[0])], [x for x in rem if inner(x[0])]
+    if not (len(im) == 1 and len(ii) == 2 and len(rm) == 1 and len(ri_) == 2):
+        bad = "not (1 insert + 1 remove) at a mirror facet and (2 inserts + 2 removes) at an inner facet: %s" % [len(im), len(rm), len(ii), len(ri_)]
+    else:
+        j_ = strip(rm[0][1][1][2][2]) if rm[0][1][1][0] == "agg" and len(rm[0][1][1][2]) == 3 else None
+        if j_ is None:
+            bad = "remove((d, i, j)) not found"
+        else:
+            r = loop_range_of_payload(gb, j_, g)
+            some = lambda c: ("field", ("variant", c, "Some"), "0")
+            d_opp = ("field", some(opp(d_, j_)), "0")
+            d_cnt = ("field", some(opp(d_, j_)), "1")
+            un = lambda c: ("call", "std::option::Option::<T>::unwrap", (c,))
+            di_opp = ("field", un(opp(di, j_)), "0")
+            di_cnt = ("field", un(opp(di, j_)), "1")
+            cnt = ("binop", "Add", d_cnt, di_cnt)
+            T = lambda *xs: ("agg", "tuple", tuple(xs))
+            if not (im[0][1][1] == d_opp and im[0][1][2] == T(T(("int", 0), ("int", 0), ("int", 0)), d_cnt) and rm[0][1][1] == T(d_, i_, j_)):
+                bad = "at a mirror facet the far ridge is not closed with the dummy ridge (0,0,0) keeping its count, and (d, i, j) removed"
+            else:
+                got = {(x[1][1], unov_deep(x[1][2])) for x in ii}
+                want = {(d_opp, T(di_opp, cnt)), (di_opp, T(d_opp, cnt))}
+                want2 = {(d_opp, T(di_opp, ("binop", "Add", di_cnt, d_cnt))), (di_opp, T(d_opp, ("binop", "Add", di_cnt, d_cnt)))}
+                if got != want and got != want2:
+                    bad = "at an inner facet the two far ridges are not joined to each other, both ways, with the sum of the two counts"
+                elif {x[1][1] for x in ri_} != {T(d_, i_, j_), T(di, i_, j_)}:
+                    bad = "the two glued ridges (d, i, j) and (d.i, i, j) are not both removed"
+                elif not ((r and eval_int(r[0]) == 0 and r[2] and is_call(strip(r[1]), "::dim")) or
+                          (isinstance(iter_source(gb, j_, g), tuple) and contains(norm(iter_source(gb, j_, g), g), lambda y: isinstance(y, tuple) and y and y[0] == "call" and y[1].endswith("RangeInclusive::<Idx>::new") and eval_int(y[2][0]) == 0 and is_call(strip(y[2][1]), "::dim")))):
+                    bad = "the ridges of the glued facet are not visited for all j in 0..=dim()"
+                else:
+                    fl = list(gb.calls("Iterator::filter"))
+                    res = closure_result(ctx.facts, gb.origin(fl[0][1]["args"][1]), g) if len(fl) == 1 else None
+                    res = strip(res) if res is not None else None
+                    if not (res is not None and res[0] == "binop" and res[1] == "Ne" and i_ in (strip(res[2]), strip(res[3]))):
+                        bad = "the ridge index j is not filtered by j != i"
+    ctx.ob("T9-ridge-map", gb.name, "glue bookkeeping", "ok" if not bad else "violation",
+           "mirror: far ridge -> dummy, same count; inner: far ridges joined both ways with d_cnt + di_cnt; glued ridges removed; all j != i" if not bad else bad)
+    # spanning tree: one tree edge per chamber first reached through an operation, over all indices and all chambers
+    sb = ctx.body("fundamental_group::spanning_tree")
+    ctx.scan([sb])
+    ds = ("param", 1, sb.debug.get(1, ""))
+    tr = [[strip(norm(sb.origin(a), g)) for a in t["args"]] for _, t in sb.calls("DSet::traversal")]
+    bad = None
+    full = lambda r, lo, what: is_call(r, "RangeInclusive::<Idx>::new") and eval_int(r[2][0]) == lo and is_call(strip(r[2][1]), what)
+    if len(tr) != 1 or tr[0][0] != ds or not full(tr[0][1], 0, "::dim") or not contains(tr[0][2], lambda y: isinstance(y, tuple) and full(y, 1, "::size") if isinstance(y, tuple) and y and y[0] == "call" else False):
+        bad = "the tree is not grown by ds.traversal(0..=dim(), all chambers 1..=size())"
+    else:
+        pushes = [(bi, strip(norm(sb.origin(t["args"][1]), g))) for bi, t in sb.calls("::push")]
+        inss = [(bi, strip(norm(sb.origin(t["args"][1]), g))) for bi, t in sb.calls("HashSet::<T, S, A>::insert") or sb.calls("::insert")]
+        if len(pushes) != 1 or len(inss) != 1:
+            bad = "not one push / one insert"
+        else:
+            pb, pv = pushes[0]
+            ib, iv = inss[0]
+            item = strip(iv[1]) if iv[0] == "field" and iv[2] == "2" else None
+            unseen = lambda bb: any(x[0] == "bool" and x[2] is False and x[1][0] == "call" and x[1][1].endswith("::contains") and strip(x[1][2][1]) == iv for x in (atom_norm(y, g) for y in sb.facts_at(bb)))
+            okv = item is not None and pv[0] == "agg" and len(pv[2]) == 3 and strip(pv[2][0]) == ("field", item, "1") and strip(pv[2][1]) == ("field", ("variant", ("field", item, "0"), "Some"), "0") and strip(pv[2][2])[0] == "agg" and strip(pv[2][2])[1].endswith("Option::None")
+            if not okv:
+                bad = "the tree edge pushed is not (d, i, None) of the traversal item (i, d, di): %s" % show(pv, 1)[:70]
+            elif not (unseen(pb) and unseen(ib)):
+                bad = "tree edge and `seen` mark are not both made exactly when di is new"
+    ctx.ob("T9-ridge-map", sb.name, "spanning tree", "ok" if not bad else "violation",
+           "one edge (d, i, None) per chamber di first reached through an operation; all indices, all chambers" if not bad else bad)
+
+
 def run(ctx):
     g = ctx.facts.getters()
+    boundary_bookkeeping(ctx, g)
     closing_test(ctx, g)
     sentinel_not_unwrapped(ctx, g)
     # (1) reducedness: T1 over the whole crate
